@@ -16,6 +16,8 @@ import (
 	"path/filepath"
 	"regexp"
 	"runtime"
+	"runtime/debug"
+	"runtime/pprof"
 	"sort"
 	"strconv"
 	"strings"
@@ -366,7 +368,14 @@ func cmdRun(args []string) {
 	trace := fs.Bool("trace", false, "")
 	all := fs.Bool("all", false, "explore all paths in-process")
 	smtlog := fs.String("smtlog", "", "")
+	cpuprof := fs.String("cpuprofile", "", "")
+	maxp := fs.Int("maxpaths", 0, "")
 	fs.Parse(args)
+	if *cpuprof != "" {
+		f, _ := os.Create(*cpuprof)
+		pprof.StartCPUProfile(f)
+		defer pprof.StopCPUProfile()
+	}
 	h := findHarness(*name)
 	tmp, _ := os.MkdirTemp("", "gosym-r")
 	defer os.RemoveAll(tmp)
@@ -400,6 +409,14 @@ func cmdRun(args []string) {
 		fmt.Println(string(b))
 		if *all {
 			work = append(work, res.Pending...)
+		}
+		if n%100 == 0 && os.Getenv("GOSYM_MEM") != "" {
+			var ms runtime.MemStats
+			runtime.ReadMemStats(&ms)
+			fmt.Fprintf(os.Stderr, "paths=%d goroutines=%d heapAlloc=%dMB sys=%dMB\n", n, runtime.NumGoroutine(), ms.HeapAlloc>>20, ms.Sys>>20)
+		}
+		if *maxp > 0 && n >= *maxp {
+			break
 		}
 	}
 	fmt.Fprintf(os.Stderr, "%d paths, %d queries, solver %.2fs, total %v\n", n, e.S.Queries, float64(e.S.SolverNs)/1e9, time.Since(t0))
@@ -462,6 +479,12 @@ func startWorker(h Harness, tier string) (*worker, error) {
 	self, _ := os.Executable()
 	c := exec.Command(self, "worker", "-harness", h.Name, "-tier", tier)
 	c.Stderr = os.Stderr
+	if d := os.Getenv("GOSYM_WORKER_LOG"); d != "" {
+		os.MkdirAll(d, 0o755)
+		if f, err := os.CreateTemp(d, "worker-*.log"); err == nil {
+			c.Stderr = f
+		}
+	}
 	inp, _ := c.StdinPipe()
 	outp, _ := c.StdoutPipe()
 	if err := c.Start(); err != nil {
@@ -520,7 +543,8 @@ func explore(h Harness, tier string, nworkers int) *harnessReport {
 		go func() {
 			line, err := w.out.ReadBytes('\n')
 			if err != nil {
-				results <- result{w: w, err: fmt.Errorf("worker died: %v", err)}
+				werr := w.cmd.Wait()
+				results <- result{w: w, err: fmt.Errorf("worker died: %v (exit: %v, %s)", err, werr, w.cmd.ProcessState)}
 				return
 			}
 			var pr interp.PathResult
@@ -870,6 +894,9 @@ func cmdCheck(args []string) {
 		for k, n := range rep.Inconclusive {
 			lines = append(lines, fmt.Sprintf("INCONCLUSIVE harness=%s reason=%s count=%d", h.Name, k, n))
 		}
+		for _, m := range rep.InconclMsgs {
+			lines = append(lines, fmt.Sprintf("INCONCLUSIVE-DETAIL harness=%s %s", h.Name, m))
+		}
 		if rep.Reached == 0 {
 			lines = append(lines, fmt.Sprintf("INCONCLUSIVE harness=%s reason=vacuous (no path reached verif.Reached)", h.Name))
 			rep.Inconclusive["vacuous"]++
@@ -1035,11 +1062,14 @@ func main() {
 		cmdCheck(os.Args[2:])
 	case "run":
 		runtime.GOMAXPROCS(2)
+		debug.SetGCPercent(200)
 		cmdRun(os.Args[2:])
 	case "worker":
 		// exactly one interpreted goroutine runs at a time (baton passing); more Ps only add
 		// cross-thread wake-ups and GC threads that fight with the other workers
-		runtime.GOMAXPROCS(2)
+		runtime.GOMAXPROCS(1)
+		debug.SetGCPercent(150)
+		debug.SetMemoryLimit(3 << 30)
 		cmdWorker(os.Args[2:])
 	case "replay":
 		cmdReplay(os.Args[2:])
